@@ -15,6 +15,8 @@ func checkC09(c *Ctx) {
 	r.Rule("R09.1", "pooled state is re-initialised: for every field of the pooled PrintCtx and every output mode (branches on the two mode bits pruned), no path of a print session (from taking the object out of the pool to the Write) can read the field before this session has definitely written it; exceptions are justified one by one by their own checked invariant (buf truncated by set, off only ever stored 0 on the print path, constructor constants never stored again, prefix saved and restored, cachedSource extracted before read)")
 	r.Rule("R09.2", "no other carry-over: nothing on the print path stores to a package-level variable or calls a mutating method on a package-level object, except the two pools and the atomic size hint, whose value flows only into the capacity of a fresh slice")
 	r.Rule("R02.6", "(shared with C02) the pooled formatting buffer belongs to one record at a time: it goes back to the pool only after the Write that hands its bytes to the destination, and neither it nor the bytes taken from it are used afterwards")
+	r.Rule("R08.1", "(shared with C08) nothing on the print path writes memory that outlives the call other than the pooled objects of this call")
+	r.Rule("R08.2", "(shared with C08) slices that are sorted/compacted in place, and slots of the pooled attribute slice, belong to this call: never a handler's, logger's, group's or caller's backing array, and no stale element of an earlier call is exposed")
 	r.Rule("R09.3", "per-record inputs are (re)assigned for every record: set()/setentry() definitely store the mode bits, layout, zone mode, value stringer, colours, level, message, attributes, timestamp and stack frame on every path")
 	r.Assume("user-supplied marshallers and value stringers leave the encoder's read offset and mode fields alone (they are outside the property's domain)")
 	for _, tags := range c.Configs([]string{""}, []string{"", "verbose", "hint"}) {
@@ -30,6 +32,7 @@ func checkC09(c *Ctx) {
 		c09Pooled(c, p, m, "R09.1", feasibleModes)
 		c09Globals(c, p, m)
 		c02Pool(c, p, m)
+		c08Stores(c, p, m)
 	}
 	c.Floor["R09.1"] = 60
 	c.Floor["R09.3"] = 10
